@@ -750,6 +750,14 @@ int mpq_EGlpNumReadStrXc (mpq_t var,
 			 * exponent */
 			else
 			{
+				/* an exponent of more than five digits is not a number we can
+				 * represent: expanding it exhausts memory (and l_exp overflows) */
+				if (l_exp > 9999)
+				{
+					mpq_clear (den[0]);
+					mpq_clear (den[1]);
+					return 0;
+				}
 				l_exp = 10 * l_exp + c - '0';
 				a_exp_sgn = 0;
 			}
